@@ -60,7 +60,7 @@ DrawsOK(ev, y) ==
     /\ \A k \in 1..Len(ev.draws) :
           /\ ev.draws[k].e \in Events
           /\ ev.draws[k].global                                  \* drawn from the global stream
-          /\ RMul(<<ev.draws[k].scale[1], ev.draws[k].scale[2]>>, RateAt(ev.draws[k].e, y)) = ROne
+          /\ RNorm(ev.draws[k].scale[1], ev.draws[k].scale[2]) = RInv(RateAt(ev.draws[k].e, y))   \* scale * rate = 1, without forming a product (32-bit integers)
     /\ \E k \in 1..Len(ev.draws) :
           /\ ev.draws[k].e = ev.chosen
           /\ ev.draws[k].vr = 1                                  \* the minimum ...
